@@ -3,10 +3,18 @@
 * C17.read-only       from identify_pytorch_file_format no reachable operation writes, extracts, renames, removes or
                       links; every open of the examined file has a literal read mode; nothing reachable is a source of
                       non-determinism or keeps per-path state between calls.
-* C17.table-floor     for torch zips the answer is built from *all* rows of the documented decision table that match
-                      (one comprehension, no break, no later filtering), the table is the documented one in the
-                      documented order, the marker list is the documented five, and the row whose only key is
-                      `has_data_pkl` names "PyTorch v1.3".
+* C17.table-floor     where the decision table is a literal, it is the documented one in the documented order and the row
+                      whose only key is `has_data_pkl` names "PyTorch v1.3".
+* C17.table-worlds    identify_pytorch_file_format, find_file_properties, check_and_find_in_zip, check_for_corruption and
+                      check_if_model_archive_format are *interpreted* (sa/minieval) over abstract files: all 32 subsets of
+                      the five marker members x placement (root / one directory deep / two deep) x {zip at offset 0, zip
+                      with leading junk, no zip} x {no tar, legacy tar, other tar} x stacked pickle x model-archive
+                      members; the answer must contain exactly the documented rows that match, in the documented order and
+                      first, plus exactly the non-zip formats whose evidence is present.  (Sub-rules that matched the shape
+                      of the comprehension were retired for this: they fired on behaviour-preserving rewrites.)
+* C17.legacy-pickle   check_pickle (and StackedPickle.load under it) interpreted over abstract streams of pickles: the
+                      stacks torch's legacy save writes - first pickle 2 opcodes (protocol 0/1), 3 (protocol 2/3) or 4
+                      (framed) - are valid; a file with no pickle is not.
 * C17.inputs-untouched create_polyglot uses its two input paths only as the *source* of a content copy (and for
                       basename); every write targets the temp copies or the output name.
 * C17.cleanup         every temporary artefact the polyglot constructors create is removed on every exit of the
@@ -142,18 +150,6 @@ def check_read_only(repo: Repo, rep: Report):
         raise AnalysisError("fewer than 7 polyglot functions reached from identify_pytorch_file_format")
 
 
-def _all_keys_hold(test: ast.AST, pname: str, keysvar: str) -> bool:
-    """`all(<props>[k] for k in <keys>)` for any spelling of the bound variable k."""
-    if not (isinstance(test, ast.Call) and dotted(test.func) == "all" and len(test.args) == 1 and isinstance(test.args[0], (ast.GeneratorExp, ast.ListComp))):
-        return False
-    ge = test.args[0]
-    if len(ge.generators) != 1 or ge.generators[0].ifs or not isinstance(ge.generators[0].target, ast.Name) or dotted(ge.generators[0].iter) != keysvar:
-        return False
-    k = ge.generators[0].target.id
-    e = ge.elt
-    return isinstance(e, ast.Subscript) and dotted(e.value) == pname and isinstance(e.slice, ast.Name) and e.slice.id == k
-
-
 def check_table(repo: Repo, rep: Report):
     f = repo.func(f"{PG}.identify_pytorch_file_format")
     # the dict of file properties, whatever the local is called: bound from find_file_properties(...)
@@ -163,13 +159,15 @@ def check_table(repo: Repo, rep: Report):
     file = f.file
     tables = [n for n in body_walk(f.node) if isinstance(n, ast.Assign) and isinstance(n.value, (ast.List, ast.Tuple)) and n.value.elts and all(isinstance(e, ast.Tuple) and len(e.elts) == 2 for e in n.value.elts)]
     if len(tables) != 1:
-        raise AnalysisError("identify_pytorch_file_format: decision table literal not found")
+        rep.info("C17.table-floor: no single literal decision table in identify_pytorch_file_format; the table is decided by C17.table-worlds alone")
+        return
     tnode = tables[0]
     tname = tnode.targets[0].id
     try:
         table = ast.literal_eval(tnode.value)
     except Exception:
-        raise AnalysisError("decision table is not a literal")
+        rep.info("C17.table-floor: the decision table is not a literal; decided by C17.table-worlds alone")
+        return
     table = [(list(k), v) for k, v in table]
     if table == DOC_TABLE:
         rep.ok("C17.table-floor", f.qualname, "decision table equals the documented five rows in the documented order", f"{file}:{tnode.lineno}")
@@ -186,66 +184,8 @@ def check_table(repo: Repo, rep: Report):
         rep.ok("C17.table-floor", f.qualname, "row (has_data_pkl) -> 'PyTorch v1.3': anything torch's zip reader accepts is reported at least as v1.3", f"{file}:{tnode.lineno}")
     else:
         rep.bad("C17.table-floor", f.qualname, "no-v1.3-floor", "no row whose only key is has_data_pkl names 'PyTorch v1.3'", file, tnode.lineno)
-    # construction: formats = [name for keys, name in table if all(properties[key] for key in keys)]
-    builds = [n for n in body_walk(f.node) if isinstance(n, ast.Assign) and isinstance(n.value, ast.ListComp) and dotted(n.value.generators[0].iter) == tname]
-    if len(builds) != 1:
-        # a loop form
-        loops = [n for n in body_walk(f.node) if isinstance(n, ast.For) and dotted(n.iter) == tname]
-        if len(loops) == 1 and not any(isinstance(x, (ast.Break, ast.Return, ast.Continue)) for x in ast.walk(loops[0])):
-            rep.ok("C17.table-floor", f.qualname, "all rows examined by a loop without break", f"{file}:{loops[0].lineno}")
-            fname = "formats"
-        else:
-            rep.bad("C17.table-floor", f.qualname, "not-all-rows", "the result is not built from all matching rows of the table (comprehension / loop without break not found)", file, tnode.lineno)
-            return
-    else:
-        b = builds[0]
-        comp = b.value
-        g = comp.generators[0]
-        fname = b.targets[0].id
-        ok = len(comp.generators) == 1 and len(g.ifs) == 1 and isinstance(g.target, ast.Tuple) and len(g.target.elts) == 2 and all(isinstance(x, ast.Name) for x in g.target.elts) and dotted(comp.elt) == g.target.elts[1].id and _all_keys_hold(g.ifs[0], "properties", g.target.elts[0].id)
-        if ok:
-            rep.ok("C17.table-floor", f.qualname, "formats = every row (in table order) all of whose keys hold", f"{file}:{b.lineno}")
-        else:
-            rep.bad("C17.table-floor", f.qualname, "row-filter", f"the result comprehension is `{src(comp, 160)}`: not 'every row whose keys all hold, in table order'", file, b.lineno)
-        # guarded only by is_torch_zip
-        gg = CFG(f.node)
-        node = gg.node_of(comp)
-        conds = [src(gg.nodes[d].ast) for d in gg.dominators()[node.id] if gg.nodes[d].kind == "branch" and gg.nodes[d].value is True]
-        if conds != ["properties['is_torch_zip']"]:
-            rep.bad("C17.table-floor", f.qualname, "table-guard", f"the table is consulted under {conds}, not exactly `properties['is_torch_zip']`", file, b.lineno)
-    # afterwards: formats only grows
-    for n in body_walk(f.node):
-        if isinstance(n, ast.Call) and isinstance(n.func, ast.Attribute) and dotted(n.func.value) == fname and n.func.attr in ("remove", "pop", "clear", "sort", "reverse", "insert", "__delitem__"):
-            rep.bad("C17.table-floor", f.qualname, f"result-edited:{n.func.attr}", f"`{src(n)}` edits the list of matching formats after the table was applied: the documented table is no longer followed", file, n.lineno)
-        if isinstance(n, (ast.Assign, ast.AugAssign, ast.Delete)) and n is not (builds[0] if builds else None):
-            for t in store_targets(n):
-                if dotted(base_of(t)) == fname and not (isinstance(n, ast.Assign) and isinstance(n.value, ast.List) and not n.value.elts):
-                    rep.bad("C17.table-floor", f.qualname, "result-reassigned", f"`{src(n)}` rewrites the list of matching formats after the table was applied", file, n.lineno)
-    rets = [n.value for n in body_walk(f.node) if isinstance(n, ast.Return)]
-    if rets and all(dotted(r) == fname for r in rets):
-        rep.ok("C17.table-floor", f.qualname, f"returns `{fname}` whole", f"{file}:{f.line}")
-    else:
-        rep.bad("C17.table-floor", f.qualname, "result-sliced", f"identify_pytorch_file_format returns {[src(r) for r in rets]}", file, f.line)
-    # marker list and key derivation in find_file_properties
-    fp = repo.func(f"{PG}.find_file_properties")
-    lists = [n for n in body_walk(fp.node) if isinstance(n, ast.Assign) and isinstance(n.value, ast.List) and all(isinstance(e, ast.Constant) and isinstance(e.value, str) for e in n.value.elts) and n.value.elts]
-    mk = [l for l in lists if [e.value for e in l.value.elts] == DOC_MARKERS]
-    if mk:
-        rep.ok("C17.table-floor", fp.qualname, f"marker members: {DOC_MARKERS}", f"{fp.file}:{mk[0].lineno}")
-    else:
-        rep.bad("C17.table-floor", fp.qualname, "marker-list", f"the marker member list is {[[e.value for e in l.value.elts] for l in lists]}, not the documented {DOC_MARKERS}", fp.file, fp.line)
-    comps = [n for n in body_walk(fp.node) if isinstance(n, ast.DictComp)]
-    okd = [
-        c for c in comps
-        if isinstance(c.key, ast.JoinedStr) and c.key.values and isinstance(c.key.values[0], ast.Constant) and c.key.values[0].value == "has_"
-        and isinstance(c.generators[0].target, ast.Name) and any(isinstance(x, ast.Name) and x.id == c.generators[0].target.id for x in ast.walk(c.key))
-        and isinstance(c.value, ast.Call) and dotted(c.value.func) == "check_and_find_in_zip" and not c.generators[0].ifs
-        and len(c.value.args) >= 2 and dotted(c.value.args[1]) == c.generators[0].target.id
-    ]
-    if okd:
-        rep.ok("C17.table-floor", fp.qualname, "has_<marker> = check_and_find_in_zip(file, marker) for every marker", f"{fp.file}:{okd[0].lineno}")
-    else:
-        rep.bad("C17.table-floor", fp.qualname, "marker-keys", "the has_<marker> properties are no longer derived uniformly from the marker list", fp.file, fp.line)
+    # how the table is applied (all matching rows, in order, only for torch zips, nothing edited afterwards) and how the
+    # has_<marker> facts are derived is decided by interpretation: C17.table-worlds
 
 
 COPY_FUNCS = {"shutil.copy", "shutil.copyfile", "shutil.copy2"}
@@ -416,6 +356,272 @@ def check_cleanup(repo: Repo, rep: Report):
                 )
 
 
+# ------------------------------------------------------------------------------------------------------------------------
+# C17.legacy-pickle: what "is a valid pickle" answers for the files torch's legacy (non-zip) save writes
+# ------------------------------------------------------------------------------------------------------------------------
+# torch's legacy format is a *stack* of pickles: the magic number, the protocol version, sys_info, the object, the storage
+# keys.  With pickle_protocol >= 2 the magic-number pickle is PROTO LONG1 STOP (3 opcodes); with pickle_protocol 0 or 1 there
+# is no PROTO opcode and it is LONG STOP (2 opcodes).  The opcode counts below are those facts, nothing else about the bytes
+# is modelled: the file is an abstract stream of pickles with a read position.
+LEGACY_WORLDS = [
+    ("legacy-save-protocol-2", [3, 3, 20, 50, 5], True),
+    ("legacy-save-protocol-0", [2, 2, 20, 50, 5], True),
+    ("legacy-save-protocol-4-framed", [4, 4, 22, 60, 6], True),
+    ("not-a-pickle", ["junk"], False),
+    ("empty-file", [], False),
+]
+
+
+def _pickle_stream_world(repo: Repo, pickles, log):
+    from ..minieval import PyIter, PyRaise, Record
+
+    stream = Record("file", {"pos": 0})
+    stream.fields["()seek"] = lambda off, whence=0: stream.fields.__setitem__("pos", 0 if (off, whence) == (0, 0) else stream.fields["pos"]) or stream.fields["pos"]
+    stream.fields["()tell"] = lambda: stream.fields["pos"]
+    stream.fields["()seekable"] = lambda: True
+    stream.fields["()readable"] = lambda: True
+    pk = repo.cls("fickling.fickle.Pickled")
+    opc = pk.method("opcodes") if pk is not None else None
+
+    def load_one(src_):
+        if src_ is not stream:
+            raise PyRaise("TypeError")
+        i = stream.fields["pos"]
+        if i >= len(pickles):
+            raise PyRaise("EmptyPickleError")
+        if pickles[i] == "junk":
+            raise PyRaise("ValueError")
+        stream.fields["pos"] = i + 1
+        log.append(("parsed", i))
+        n = pickles[i]
+        ops = [Record("Opcode", {"name": f"OP{j}"}) for j in range(n - 1)] + [Record("Opcode", {"name": "STOP"})]
+        p = Record("Pickled", {"__len__": n, "_opcodes": ops})
+        p.fields["__iter__"] = lambda _o=ops: list(_o)
+        p.fields["__getitem__"] = lambda ix, _o=ops: _o[ix]
+        if opc is not None and opc.kind == "property":
+            p.fields["opcodes"] = PyIter(iter(ops), "iter")  # what the property returns: iter(self)
+        elif opc is not None:
+            p.fields["()opcodes"] = lambda _o=ops: PyIter(iter(_o), "iter")
+        return p
+
+    return stream, load_one
+
+
+def check_legacy_pickle(repo: Repo, rep: Report):
+    """Interprets check_pickle (and StackedPickle.load under it) over abstract pickle streams."""
+    from ..minieval import _EXC_PARENT, _MISSING, Evaluator, PyRaise, Record, Unsupported
+
+    rule = "C17.legacy-pickle"
+    f = repo.functions.get(f"{PG}.check_pickle")
+    ffp = repo.functions.get(f"{PG}.find_file_properties")
+    if f is None or ffp is None:
+        raise AnalysisError("polyglot.check_pickle / find_file_properties not found")
+    # exception classes of the repo, for `except EmptyPickleError`-style handlers
+    for c in repo.classes.values():
+        if c.module.name == "fickling.fickle" and c.name.endswith("Error") and c.node.bases:
+            b = dotted(c.node.bases[0]) or ""
+            _EXC_PARENT.setdefault(c.name, b.split(".")[-1])
+    # the arguments identification passes
+    sites = [c for c in body_walk(ffp.node) if isinstance(c, ast.Call) and (dotted(c.func) or "").split(".")[-1] == "check_pickle"]
+    if not sites:
+        rep.bad(rule, ffp.qualname, "no-pickle-probe", "find_file_properties no longer probes the file with check_pickle: the `is_valid_pickle` fact the legacy row depends on has no source", ffp.file, ffp.line)
+        return
+    params = [a.arg for a in f.node.args.args]
+    defaults = dict(zip(params[len(params) - len(f.node.args.defaults):], f.node.args.defaults))
+    stacked = repo.cls("fickling.fickle.StackedPickle")
+    sload = stacked.method("load") if stacked is not None else None
+    n_worlds = 0
+    for call in sites:
+        for label, pickles, expected in LEGACY_WORLDS:
+            log: list = []
+            stream, load_one = _pickle_stream_world(repo, pickles, log)
+            env = {}
+            try:
+                for name, d in defaults.items():
+                    env[name] = ast.literal_eval(d)
+                for name, a in zip(params[1:], call.args[1:]):
+                    env[name] = ast.literal_eval(a)
+                for k in call.keywords:
+                    env[k.arg] = ast.literal_eval(k.value)
+            except Exception:
+                raise AnalysisError(f"{ffp.qualname}: check_pickle is called with a non-constant argument: {src(call)}")
+            env[params[0]] = stream
+
+            def hook(name, args, kw, ev, _load=load_one, _stream=stream):
+                last = name.split(".")[-1]
+                if name in ("Pickled.load", "fickle.Pickled.load", "fickling.fickle.Pickled.load"):
+                    return _load(*args)
+                if name in ("Pickled.make_stream", "fickle.Pickled.make_stream"):
+                    return args[0]
+                if name in ("StackedPickle.load", "fickle.StackedPickle.load") and sload is not None:
+                    sub = ev.child({sload.node.args.args[0].arg: args[0]})
+                    return sub.run_body(sload.node.body)
+                if name == "StackedPickle":
+                    return Record("StackedPickle", {"pickles": args[0], "__len__": len(args[0])})
+                if name.endswith("Error") and name[:1].isupper():
+                    return Record("exc", {"name": name})
+                return _MISSING
+
+            ev = Evaluator(env, call_hook=hook)
+            try:
+                got = ev.run_body(f.node.body)
+            except Unsupported as e:
+                raise AnalysisError(f"check_pickle: cannot interpret over the abstract pickle stream ({label}): {e}")
+            except PyRaise as pe:
+                got = f"raises {pe.name}"
+            n_worlds += 1
+            if got is not expected and not (isinstance(got, bool) and got == expected):
+                what = (
+                    "a file written by torch's legacy save is no longer reported as a valid pickle, so it is not identified as PyTorch v0.1.10"
+                    if expected
+                    else "a file that contains no pickle at all is reported as a valid pickle, so it is identified as PyTorch v0.1.10"
+                )
+                rep.bad(rule, f.qualname, f"{label}:{got}", f"check_pickle({src(call).split('(', 1)[1]} over a stream of pickles with opcode counts {pickles} answers {got!r}, expected {expected}: {what}", f.file, f.line)
+    rep.ok(rule, f.qualname, f"{len(sites)} probe site(s) x {len(LEGACY_WORLDS)} abstract files interpreted: legacy stacks (first pickle 2, 3 or 4 opcodes) are valid, files with no pickle are not", "", nontrivial=True)
+
+
+# ------------------------------------------------------------------------------------------------------------------------
+# C17.table-worlds: identification interpreted end to end over abstract files
+# ------------------------------------------------------------------------------------------------------------------------
+EXTRA_NAMES = {"legacy-tar": "PyTorch v0.1.1", "pickle": "PyTorch v0.1.10", "mar": "PyTorch model archive format"}
+ALWAYS_MEMBERS = ["byteorder", "data/0", "data/1", ".data/serialization_id"]
+MAR_MEMBERS = ["MAR-INF/MANIFEST.json", "handler.py", "weights.pth"]
+
+
+def _bind(f: FuncInfo, args, kw):
+    params = [a.arg for a in f.node.args.args]
+    env = {}
+    ds = f.node.args.defaults
+    for name, d in zip(params[len(params) - len(ds):], ds):
+        env[name] = ast.literal_eval(d)
+    for name, a in zip(params, args):
+        env[name] = a
+    for k, v in kw.items():
+        if k not in params:
+            raise AnalysisError(f"{f.qualname}: unexpected keyword {k}")
+        env[k] = v
+    missing = [p_ for p_ in params if p_ not in env]
+    if missing:
+        raise AnalysisError(f"{f.qualname}: called without {missing}")
+    return env
+
+
+def _file_worlds(tier: str):
+    import itertools
+
+    subsets = [tuple(m for m, bit in zip(DOC_MARKERS, bits) if bit) for bits in itertools.product((0, 1), repeat=5)]
+    placements = ["", "archive/"] + (["model/sub/"] if tier == "thorough" else [])
+    for tar in ("no", "legacy-tar", "other-tar"):
+        for pk in (False, True):
+            for mar in (False, True):
+                for sub in subsets:
+                    for pl in placements:
+                        names = [pl + m for m in sub] + [("archive/" if not pl else pl) + m for m in ALWAYS_MEMBERS] + (MAR_MEMBERS if mar else [])
+                        yield {"torch_zip": True, "std_zip": True, "tar": tar, "pickle": pk, "mar": mar, "subset": sub, "names": names, "label": f"torch-zip markers={list(sub)} at '{pl}'"}
+                # a zip that torch's reader does not accept (not at offset 0): never classified from the table
+                yield {"torch_zip": False, "std_zip": True, "tar": tar, "pickle": pk, "mar": mar, "subset": (), "names": ["archive/" + m for m in DOC_MARKERS] + (MAR_MEMBERS if mar else []), "label": "zip with leading junk (all five markers present)"}
+            yield {"torch_zip": False, "std_zip": False, "tar": tar, "pickle": pk, "mar": False, "subset": (), "names": None, "label": "not a zip"}
+
+
+def check_table_worlds(repo: Repo, rep: Report, tier: str):
+    from ..minieval import _MISSING, Evaluator, PyRaise, Record, Unsupported
+
+    rule = "C17.table-worlds"
+    root = repo.func(f"{PG}.identify_pytorch_file_format")
+    table_names = [n for _, n in DOC_TABLE]
+    n_worlds = 0
+    deviations: Dict[str, Tuple[int, str]] = {}
+
+    def note(kind, msg):
+        c, m = deviations.get(kind, (0, msg))
+        deviations[kind] = (c + 1, m)
+
+    for w in _file_worlds(tier):
+        opened: List[tuple] = []
+        fobj = Record("file", {"name": "FILE"})
+        fobj.fields["()seek"] = lambda *a, **k: 0
+        fobj.fields["()tell"] = lambda: 0
+        fobj.fields["()read"] = lambda *a, **k: b""
+        fobj.fields["()close"] = lambda: None
+
+        def zip_of(path, mode="r", *a, _w=w, **k):
+            opened.append(("zip", mode))
+            if _w["names"] is None:
+                raise PyRaise("BadZipFile")
+            z = Record("ZipFile", {})
+            z.fields["()namelist"] = lambda: list(_w["names"])
+            z.fields["()infolist"] = lambda: [Record("ZipInfo", {"filename": n}) for n in _w["names"]]
+            z.fields["()close"] = lambda: None
+            return z
+
+        special = {
+            "open": lambda path, mode="r", *a, **k: opened.append(("open", mode)) or fobj,
+            "_is_zipfile": lambda f_: w["torch_zip"],
+            "torch.serialization._is_zipfile": lambda f_: w["torch_zip"],
+            "tarfile.is_tarfile": lambda f_: w["tar"] != "no",
+            "zipfile.is_zipfile": lambda f_: w["std_zip"],
+            "zipfile.ZipFile": zip_of,
+            "check_pickle": lambda *a, **k: w["pickle"],
+            "check_numpy": lambda *a, **k: (False, False),
+            "check_if_legacy_format": lambda *a, **k: w["tar"] == "legacy-tar",
+        }
+
+        def hook(name, args, kw, ev):
+            if name in special:
+                return special[name](*args, **kw)
+            g = repo.functions.get(f"{PG}.{name}")
+            if g is not None and g.cls is None and g.parent is None:
+                sub = ev.child(_bind(g, args, kw))
+                return sub.run_body(g.node.body)
+            return _MISSING
+
+        ev = Evaluator(_bind(root, ["FILE"], {}), call_hook=hook)
+        n_worlds += 1
+        desc = f"{w['label']}; tar={w['tar']}, stacked-pickle={w['pickle']}, model-archive members={w['mar']}"
+        try:
+            got = ev.run_body(root.node.body)
+        except Unsupported as e:
+            raise AnalysisError(f"identify_pytorch_file_format: cannot interpret over the abstract file ({desc}): {e}")
+        except PyRaise as pe:
+            note(f"raises:{pe.name}", f"identification raises {pe.name} for: {desc}")
+            continue
+        if not isinstance(got, list) or not all(isinstance(x, str) for x in got):
+            note("result-type", f"identification returns {got!r} (not a list of format names) for: {desc}")
+            continue
+        exp_table = [n for keys, n in DOC_TABLE if all(k[len("has_"):].replace("_", ".") in w["subset"] for k in keys)] if w["torch_zip"] else []
+        exp_extra = set()
+        if w["tar"] == "legacy-tar":
+            exp_extra.add(EXTRA_NAMES["legacy-tar"])
+        if w["pickle"]:
+            exp_extra.add(EXTRA_NAMES["pickle"])
+        if w["std_zip"] and w["mar"]:
+            exp_extra.add(EXTRA_NAMES["mar"])
+        got_table = [x for x in got if x in table_names]
+        got_extra = [x for x in got if x not in table_names]
+        if len(set(got)) != len(got):
+            note("duplicate-format", f"{got} names a format twice for: {desc}")
+        for nme in exp_table:
+            if nme not in got_table:
+                note(f"row-missing:{nme}", f"the documented row for '{nme}' matches but the answer is {got}: {desc}")
+        for nme in got_table:
+            if nme not in exp_table:
+                note(f"row-spurious:{nme}", f"'{nme}' is reported although its documented row does not match ({got}): {desc}")
+        if sorted(got_table) == sorted(exp_table) and got_table != exp_table:
+            note("row-order", f"answer {got_table} is not in the documented precedence {exp_table}: {desc}")
+        if got_table and got[: len(got_table)] != got_table:
+            note("table-not-first", f"the table's formats do not come first in {got}: {desc}")
+        for nme in exp_extra - set(got_extra):
+            note(f"format-missing:{nme}", f"'{nme}' is not reported ({got}): {desc}")
+        for nme in set(got_extra) - exp_extra:
+            note(f"format-spurious:{nme}", f"'{nme}' is reported without its evidence ({got}): {desc}")
+        for kind, mode in opened:
+            if any(ch in str(mode) for ch in "wax+"):
+                note(f"opened-for-writing:{mode}", f"identification opens the file with mode {mode!r}: {desc}")
+    for kind, (c, m) in sorted(deviations.items()):
+        rep.bad(rule, root.qualname, kind, f"{m} [{c} of {n_worlds} abstract files]", root.file, root.line)
+    rep.ok(rule, root.qualname, f"{n_worlds} abstract files (32 marker subsets x placement x torch-zip / displaced zip / no zip x tar x stacked pickle x model-archive members) interpreted through identify_pytorch_file_format, find_file_properties and the helpers they call; answers compared with the documented table", "", nontrivial=True)
+
+
 def run(rep: Report, tier: str):
     repo = load_repo()
     rep.explanation = (
@@ -426,10 +632,14 @@ def run(rep: Report, tier: str):
         "identified as both formats, are behaviours of third-party parsers on data and are not decided."
     )
     rep.rule("C17.read-only", "identification opens read-only, writes nothing, keeps no state, has no non-determinism source", 7)
-    rep.rule("C17.table-floor", "documented table, all matching rows in order, v1.3 floor row, documented markers", 6)
+    rep.rule("C17.table-floor", "the literal decision table is the documented one and has the v1.3 floor row", 0)
     rep.rule("C17.inputs-untouched", "input paths are only copy sources; builders write to temp copies / the output", 2)
     rep.rule("C17.cleanup", "temporary artefacts are removed on every exit of the creating function", 3)
+    rep.rule("C17.table-worlds", "identification, interpreted end to end over abstract files, answers what the documented table says", 1)
+    rep.rule("C17.legacy-pickle", "the pickle probe answers yes for the stacks torch's legacy save writes (any protocol) and no for files without a pickle", 1)
     check_read_only(repo, rep)
+    check_legacy_pickle(repo, rep)
+    check_table_worlds(repo, rep, tier)
     check_table(repo, rep)
     check_inputs(repo, rep)
     check_cleanup(repo, rep)
